@@ -1,0 +1,13 @@
+//go:build verif
+// +build verif
+
+package parser
+
+// Verification hook for property C21 (add-only, compiled with -tags verif).
+
+// VerifWithMainStatement exports withMainStatement: the statement that follows
+// the common table expressions of a text starting with WITH, ok = false when
+// it cannot be told.
+func VerifWithMainStatement(sql string) (string, bool) {
+	return withMainStatement(sql)
+}
